@@ -250,6 +250,11 @@ class Recorder:
             json.dump({"property": self.pid, "signature": v["signature"], "what": v["what"], "case": v["replay"]},
                       open(path, "w"), indent=1)
             new_viol.append((v, path))
+        # safety net: an obligation recorded as violated must have led to a reported violation (replayed, known or not); if a leg
+        # forgot to report one, the run is a harness error - never a silent pass
+        if any(o["status"] == VIOLATED for o in self.obligs) and not self.violations:
+            bad = [o for o in self.obligs if o["status"] == VIOLATED][:3]
+            self.harness_errors.append("violated obligation(s) without a reported violation: " + "; ".join("%s [%s]" % (o["name"][:120], (o.get("structure") or "")[:60]) for o in bad))
         n_ob = len(self.obligs)
         n_holds = sum(1 for o in self.obligs if o["status"] == HOLDS)
         n_inc = [o for o in self.obligs if o["status"] == INCONCLUSIVE]
